@@ -26,7 +26,12 @@ from functools import reduce
 import numpy as np
 from strawberryfields import ops
 from strawberryfields.program import Program
-from strawberryfields.parameters import par_is_symbolic, FreeParameter
+from strawberryfields.parameters import (
+    par_is_symbolic,
+    par_evaluate,
+    FreeParameter,
+    MeasuredParameter,
+)
 from strawberryfields.program_utils import CircuitError
 
 
@@ -597,7 +602,20 @@ class TDMProgram(Program):
 
         for i, _ in enumerate(params):
             if par_is_symbolic(params[i]):
-                params[i] = self.parameters[params[i].name][t % self.timebins]
+                if isinstance(params[i], FreeParameter):
+                    params[i] = self.parameters[params[i].name][t % self.timebins]
+                else:
+                    # expression of loop variables (or a bare sympy number) left behind by a
+                    # decomposition, e.g. ``Xgate(p[0])`` compiles to ``Dgate(p0/2, 0)``
+                    values = {
+                        s: self.parameters[s.name][t % self.timebins]
+                        for s in params[i].atoms(FreeParameter)
+                        if s.name in self.parameters
+                    }
+                    value = params[i].subs(values)
+                    if not value.atoms(FreeParameter, MeasuredParameter):
+                        value = par_evaluate(value)
+                    params[i] = value
 
         # copy the operation so that everything except the parameters (dagger, select, dark_counts, ...)
         # is retained
